@@ -120,6 +120,7 @@ def analyse(ctx, replace=None, only=None):
             return
     for f in fns.values():
         R.fn(f)
+    probing(R, P, fns)
     destruct(R, fns)
     count_load(R, fns, P)
     nonzero_hash(R, P, fns)
@@ -130,6 +131,82 @@ def analyse(ctx, replace=None, only=None):
     slots_zeroed(R, P, fns)
     hash_align(R, P)
     content_pairs(R, P)
+
+
+def probing(R, P, fns):
+    """FIND: (1) the probe loop of s_find_entry1 gives a verdict only for these reasons - `not found` at an empty slot or at
+    an entry whose own probe distance is shorter than ours (robin hood: our key would have displaced it), `found` under the
+    key comparison; a same-hash entry with a different key does not end the search (keys may share all 64 bits).
+    (2) s_remove_entry returns the slot it finally cleared - the iterator's delete decides from it whether the back-shift
+    crossed the wrap point.  (3) the byte-hashing functions return only what hashlittle2 computed from the bytes: keys that
+    compare equal (an empty cursor with or without a pointer) hash equally."""
+    f = fns["s_find_entry1"]
+    nf, okv = P.enums.get("AWS_ERROR_HASHTBL_ITEM_NOT_FOUND"), P.enums.get("AWS_ERROR_SUCCESS", 0)
+    rv = {RU.uncast(f, r_.node["a"][0])["n"] for r_ in f.returns() if r_.node.get("a") and (RU.uncast(f, r_.node["a"][0]) or {}).get("k") == "var"}
+    if R.require(nf is not None and len(rv) == 1, "s_find_entry1: verdict variable / AWS_ERROR_HASHTBL_ITEM_NOT_FOUND not found"):
+        rvn = list(rv)[0]
+        dom = dominators(f)
+        n = 0
+        for e in f.all_events():
+            if not (e.kind == "access" and e.node["k"] == "var" and e.node["n"] == rvn and e.mode == "w"):
+                continue
+            a_ = _assignment_of(f, e)
+            if a_ is None:
+                continue
+            n += 1
+            val = f.is_const(RU.uncast(f, a_["a"][1]))
+            gs = [RU.cmp_norm(f, c_, p_) for c_, p_, b_ in RU.guards(f, e, dom)]
+            if val == nf:
+                def reason(g):
+                    if not g:
+                        return False
+                    l_ = RU.uncast(f, g[0])
+                    if g[1] == "==" and (g[2] is None or f.is_const(g[2]) == 0) and l_ is not None and l_["k"] == "member" and l_["f"] == "hash_code":
+                        return True  # an empty slot
+                    if g[2] is not None and g[1] in ("<", ">"):
+                        names = {x["n"] for side in (g[0], g[2]) for x in f.walk(side, follow_refs=True) if x["k"] == "var"}
+                        return any("probe" in n_ for n_ in names)
+                    return False
+                ok = any(reason(g) for g in gs)
+                R.check(ok, "FIND", "not-found-only-at-empty-or-shorter-probe:line%d" % e.line, where(f, e), "`not found` is decided at an empty slot or at an entry with a shorter probe distance",
+                        "the search gives up with `not found` for another reason (%s): a stored key behind an entry with the same hash code is not found, put stores it a second time" % [f.show(f.d(c_))[:50] for c_, p_, b_ in RU.guards(f, e, dom)][-2:])
+            elif val == okv:
+                ok = any(RU.call_test(f, c_, p_) and RU.call_test(f, c_, p_)[0].get("callee") == "s_hash_keys_eq" and RU.call_test(f, c_, p_)[1] == "nonzero" for c_, p_, b_ in RU.guards(f, e, dom))
+                R.check(ok, "FIND", "found-only-under-key-equality:line%d" % e.line, where(f, e), "`found` is decided by the key comparison")
+            else:
+                R.fail("FIND", "verdict-is-found-or-not-found:line%d" % e.line, where(f, e), "the search verdict %s is neither `found` under the key comparison nor `not found` at an empty slot / a shorter probe distance: a same-hash entry with another key ends the search" % f.show(a_["a"][1])[:80])
+        R.require(n >= 3, "s_find_entry1: only %d verdict assignments found" % n)
+    f = fns["s_remove_entry"]
+    zero = [e for e in f.calls({"memset", "__builtin_memset", "aws_secure_zero"})]
+    rets = [x for b in f.blocks.values() for x in b.elems if x["k"] == "ret"]
+    if R.require(len(zero) >= 1 and rets, "s_remove_entry: the final clearing of a slot not found"):
+        z = zero[-1]
+        tgt = RU.strip_addr(f, RU.arg(f, z.node, 0))
+        idxn = tgt["a"][1] if tgt is not None and tgt["k"] == "index" else None
+        num = Num(f, P, HtHooks())
+        try:
+            sts = num.states_at({r["id"] for r in rets})
+        except Limit as ex:
+            R.broken(str(ex))
+            sts = {}
+        ok, cnt = idxn is not None, 0
+        for r in rets:
+            for st in sts.get(r["id"], []):
+                cnt += 1
+                a_, b_ = num.val(r["a"][0], st), (num.val(idxn, st) if idxn is not None else None)
+                if a_ is None or b_ is None or not (entails(st, a_ - b_) and entails(st, b_ - a_)):
+                    ok = False
+        R.check(ok and cnt >= 1, "ITER", "remove-entry-returns-the-cleared-slot", "%s()" % f.name, "the index returned is the slot that was finally cleared (%d states)" % cnt,
+                "s_remove_entry returns another index than the slot it finally cleared: aws_hash_iter_delete cannot tell that the back-shift crossed the wrap point, and an entry shifted to the front is visited twice")
+    for name in ("aws_hash_c_string", "aws_hash_string", "aws_hash_byte_cursor_ptr"):
+        g = P.fn(name)
+        if not R.require(g is not None, "%s not found" % name):
+            continue
+        hl = g.calls("hashlittle2")
+        dg = dominators(g)
+        ok = len(hl) >= 1 and all(any(ev_dominates(g, h, r_, dg) for h in hl) for r_ in g.returns())
+        R.check(ok, "NONZERO-HASH", "%s:hash-of-the-bytes-on-every-path" % name, "%s()" % name, "every return follows the hash of the key's bytes",
+                "%s returns without hashing the bytes on some path: two keys the matching equality function calls equal (an empty view with and without a pointer) get different hash codes, so a stored key is not found under its other spelling" % name)
 
 
 def destruct(R, fns):
